@@ -11,5 +11,7 @@ HARNESSES += [h for h in _load("C05").HARNESSES if h.name.startswith("wrap.") an
 HARNESSES += _load("C06").seek_harnesses()
 # H6: sf_close of an ALAC encoder under output faults still releases the spool stream, the temporary file and every block
 HARNESSES += [h for h in _load("C16").alac_harnesses() if "faulty" in h.name]
+# header-cache primitives on a pipe / short file: bounded (no spinning at EOF)
+HARNESSES += [h for h in _load("C03").readf_harnesses() if ".pipe" in h.name]
 META = {"assumptions": ["fault model = E-memfile MF_FAULTY: per call, any shorter transfer, failing seek, arbitrary tell/length answers"],
         "outside": ["block codecs, header parsers/writers and close under faults (see DESIGN)", "real OS errors"]}
